@@ -8,6 +8,7 @@ use crate::exec::*;
 use crate::wire::*;
 use crate::{vcheck, vfail};
 use fastcgi_server::async_io::{Runner, Token};
+use futures_util::io::AsyncRead;
 use std::future::Future;
 use std::pin::Pin;
 use std::sync::{Arc, Mutex};
@@ -80,7 +81,7 @@ pub const C13_FAULTS: &[&str] = &["connection_future_dropped", "token_dropped_un
 pub const C13_PROBES: &[&str] = &[
     "two_pending_two_releases_between_polls", "fresh_request_barged", "limit_reached", "request_ready_first_poll",
     "request_woken_then_ready", "clone_used", "run_to_completion", "shutdown_future_polled", "shutdown_ready_after_last_token",
-    "clone_shutdown_independent", "connection_task_interleaved", "connection_task_finished",
+    "clone_shutdown_independent", "connection_task_interleaved", "connection_task_finished", "huge_buffer_size_config",
 ];
 
 fn run_token(cx: &mut Ctx, token: Token, mode: u32, bufsize: usize, runner_shut: bool) -> Result<(), Violation> {
@@ -128,9 +129,13 @@ fn run_token(cx: &mut Ctx, token: Token, mode: u32, bufsize: usize, runner_shut:
 }
 
 fn panic_handler(sh: Shared) -> impl for<'a> FnMut(&'a mut fastcgi_server::async_io::Request<'_, SimRead, SimWrite>) -> futures_util::future::BoxFuture<'a, std::io::Result<fastcgi_server::ExitStatus>> {
-    move |_req| {
+    move |req| {
         let sh = sh.clone();
         Box::pin(async move {
+            // suspend at least once (when input is not there yet) so that other operations - a shutdown request,
+            // token drops - can land while this handler is in flight; then unwind through Token::run
+            let mut b = [0u8; 1];
+            let _ = std::future::poll_fn(|cx| Pin::new(&mut *req).poll_read(cx, &mut b)).await;
             lock(&sh).cx.fault("handler_panic_unwind");
             panic!("scripted handler panic");
         })
@@ -140,7 +145,11 @@ fn panic_handler(sh: Shared) -> impl for<'a> FnMut(&'a mut fastcgi_server::async
 pub fn c13(cx: &mut Ctx) -> VResult {
     cx.declare(C13_FAULTS, C13_PROBES);
     let limit = 1 + cx.ch.weighted(&[3, 4, 2, 1]);
-    let cfg = config(64, limit);
+    // the connection limit must not depend on other configuration: some histories use an absurd buffer size
+    // (buffers are only allocated when a connection runs, so these histories run none)
+    let huge_buf = cx.ch.chance(1, 12);
+    let cfg = config(if huge_buf { cx.ch.one_of(&[usize::MAX, usize::MAX / 2 + 1, usize::MAX / 4 + 1, 1 << 40]) } else { 64 }, limit);
+    if huge_buf { cx.probe("huge_buffer_size_config"); }
     let mut runners: Vec<Option<Arc<Runner>>> = vec![Some(Arc::new(cfg.async_runner()))];
     let mut pend: Vec<Pend> = Vec::new();
     let mut tokens: Vec<(Token, usize)> = Vec::new();
@@ -161,10 +170,10 @@ pub fn c13(cx: &mut Ctx) -> VResult {
             if !pend.is_empty() { 6 } else { 0 },        // 1 poll a request
             if !tokens.is_empty() { 5 } else { 0 },      // 2 drop a token unused
             if !pend.is_empty() { 2 } else { 0 },        // 3 cancel a pending request
-            if !tokens.is_empty() { 3 } else { 0 },      // 4 run a token to completion
+            if !tokens.is_empty() && !huge_buf { 3 } else { 0 },      // 4 run a token to completion
             if runners.iter().flatten().count() < 3 && runners.iter().any(Option::is_some) { 1 } else { 0 }, // 5 clone runner
             1,                                           // 6 shutdown a runner without outstanding requests / poll shutdown futures
-            if !tokens.is_empty() && conns.len() < 3 { 3 } else { 0 }, // 7 start a connection task (token lives inside it)
+            if !tokens.is_empty() && conns.len() < 3 && !huge_buf { 3 } else { 0 }, // 7 start a connection task (token lives inside it)
             if !conns.is_empty() { 8 } else { 0 },       // 8 advance a connection task by a few scheduler steps
             if !conns.is_empty() { 1 } else { 0 },       // 9 drop a connection task (its future is dropped mid-flight)
         ]);
@@ -290,7 +299,8 @@ pub fn c13(cx: &mut Ctx) -> VResult {
                     let c = conns.remove(i);
                     let panicked = c.ex.tasks[0].panicked.clone();
                     let shut = runners[c.runner].is_none();
-                    if c.mode == 2 && !shut {
+                    if c.mode == 2 {
+                        // (a handler that was already running when its runner was shut down may still panic)
                         if let Some(p) = &panicked { vcheck!(p.contains("scripted handler panic"), "panic", "unexpected panic in connection: {p}"); }
                     } else if let Some(p) = panicked {
                         vfail!("panic", "Token::run", "{p}");
